@@ -88,6 +88,8 @@ type c02Variant struct {
 	// Ed25519 CA key), "foreign" (a key of some other server); nil = not configured
 	extra []string
 	light bool // the published-keys family: a reduced set of requests (every key type, few names)
+	// the failing-template family: these names only, three requests each (ssh on two key types, x509)
+	names []string
 }
 
 // the model's names of the keys (Model/Seal.v): 1 main, 2 Ed25519, 9 foreign
@@ -145,12 +147,42 @@ var c02TemplatesBad = []sshExtension{
 	{Key: "subst", Value: "$(id)"},
 }
 
+// templates the shell expander rejects: in the NAME of an extension (command substitution with the user
+// name as argument), for everybody
+var c02TemplatesBadKey = []sshExtension{
+	{Key: "ok-${USERNAME}", Value: "v"},
+	{Key: "uid-$(id -u ${USERNAME})", Value: "x"},
+	{Key: "after", Value: "${USERNAME}"},
+}
+
+// ... only for SOME user names: an arithmetic expansion that divides by zero for names of five bytes (value
+// position) and one that divides by zero for names whose only digit is a 1 (name position); all other names
+// get all four extensions
+var c02TemplatesNameDependent = []sshExtension{
+	{Key: "who", Value: "${USERNAME}"},
+	{Key: "quota", Value: "$(( 100 / (${#USERNAME} - 5) ))"},
+	{Key: "slot-$(( 10 / (1${USERNAME//[^0-9]/} - 11) ))", Value: "x"},
+	{Key: "last", Value: "${USERNAME:0:1}"},
+}
+
+// ... unterminated forms: a parameter expansion without closing brace in a value, a replacement without end in
+// a name, an arithmetic expansion without operand
+var c02TemplatesUnterminated = []sshExtension{
+	{Key: "who", Value: "${USERNAME}"},
+	{Key: "broken-value", Value: "${USERNAME"},
+	{Key: "${USERNAME/", Value: "broken-name"},
+	{Key: "sum", Value: "$(( 1 +"},
+}
+
 func c02Variants() []c02Variant {
 	return []c02Variant{
 		{name: "plain"},
 		{name: "templates+realm+groups", templates: c02Templates1, realm: "EXAMPLE.COM", groups: true, prepend: "km-"},
 		{name: "ed25519-ca+templates", templates: c02Templates2, edCA: true, groups: true, noNorm: true},
 		{name: "failing-template", templates: c02TemplatesBad},
+		{name: "failing-template:name-position", templates: c02TemplatesBadKey, names: []string{"alice", "bob"}},
+		{name: "failing-template:name-dependent", templates: c02TemplatesNameDependent, names: []string{"alice", "bob", "dev1", "x", "carol.o-neil", "1", "abcde"}},
+		{name: "failing-template:unterminated", templates: c02TemplatesUnterminated, names: []string{"alice", "bob"}},
 		// the published-keys dimension: what keymaster_public_keys_filename already lists x Ed25519 CA
 		{name: "ed25519-ca, foreign keys listed", edCA: true, extra: []string{"foreign", "foreign"}, light: true},
 		{name: "ed25519-ca, own main key listed", edCA: true, extra: []string{"self"}, light: true},
@@ -324,6 +356,7 @@ type c02Obs struct {
 	groups      []string
 	methods     []string
 	krb         []string // realm, principal
+	otherNames  []string // every further identity in the certificate, tagged
 	krbOK       bool
 	verifyErr   string
 	parseErr    string
@@ -364,6 +397,74 @@ func c02GeneralStrings(der []byte) []string {
 	}
 	walk(der)
 	return out
+}
+
+// every identity an X.509 certificate carries beside ONE common name, the organisations and the PKINIT other-name:
+// further subject attributes, a second common name, and every entry of the subject alternative name
+func c02OtherNames(xc *x509.Certificate) []string {
+	var l []string
+	cn := 0
+	for _, a := range xc.Subject.Names {
+		switch {
+		case a.Type.Equal(asn1.ObjectIdentifier{2, 5, 4, 3}):
+			cn++
+			if cn > 1 {
+				l = append(l, fmt.Sprintf("cn#%d:%v", cn, a.Value))
+			}
+		case a.Type.Equal(asn1.ObjectIdentifier{2, 5, 4, 10}): // organisation: compared as d_orgs
+		default:
+			l = append(l, fmt.Sprintf("subject-attribute:%s=%v", a.Type, a.Value))
+		}
+	}
+	for _, e := range xc.Extensions {
+		if !e.Id.Equal(asn1.ObjectIdentifier{2, 5, 29, 17}) {
+			continue
+		}
+		var seq asn1.RawValue
+		if _, err := asn1.Unmarshal(e.Value, &seq); err != nil {
+			l = append(l, "san-undecodable")
+			continue
+		}
+		rest := seq.Bytes
+		pkinit := 0
+		for len(rest) > 0 {
+			var gn asn1.RawValue
+			var err error
+			rest, err = asn1.Unmarshal(rest, &gn)
+			if err != nil {
+				l = append(l, "san-undecodable")
+				break
+			}
+			switch gn.Tag {
+			case 0: // otherName: the type-id comes first
+				var oid asn1.ObjectIdentifier
+				if _, err := asn1.Unmarshal(gn.Bytes, &oid); err != nil {
+					l = append(l, "othername:?")
+				} else if oid.Equal(asn1.ObjectIdentifier{1, 3, 6, 1, 5, 2, 2}) {
+					pkinit++
+					if pkinit > 1 {
+						l = append(l, fmt.Sprintf("othername:pkinit#%d", pkinit))
+					}
+				} else {
+					l = append(l, "othername:"+oid.String())
+				}
+			case 1:
+				l = append(l, "email:"+string(gn.Bytes))
+			case 2:
+				l = append(l, "dns:"+string(gn.Bytes))
+			case 4:
+				l = append(l, "dirname")
+			case 6:
+				l = append(l, "uri:"+string(gn.Bytes))
+			case 7:
+				l = append(l, fmt.Sprintf("ip:%x", gn.Bytes))
+			default:
+				l = append(l, fmt.Sprintf("generalname#%d", gn.Tag))
+			}
+		}
+	}
+	sort.Strings(l)
+	return l
 }
 
 type c02Published struct {
@@ -427,9 +528,10 @@ func c02Decode(body []byte, status int, keys []*c02Key, pubd *c02Published) c02O
 		o.keyid = sc.KeyId
 		o.userType = sc.CertType == ssh.UserCert
 		o.exts = sc.Permissions.Extensions
-		if len(sc.Permissions.CriticalOptions) > 0 {
-			o.parseErr = "critical options present"
+		for k, val := range sc.Permissions.CriticalOptions {
+			o.otherNames = append(o.otherNames, "critical:"+k+"="+val)
 		}
+		sort.Strings(o.otherNames)
 		for i, k := range keys {
 			sp, _ := ssh.NewPublicKey(k.pub)
 			if bytes.Equal(sp.Marshal(), sc.Key.Marshal()) {
@@ -472,6 +574,7 @@ func c02Decode(body []byte, status int, keys []*c02Key, pubd *c02Published) c02O
 	}
 	o.orgs = append([]string{}, xc.Subject.Organization...)
 	sort.Strings(o.orgs)
+	o.otherNames = c02OtherNames(xc)
 	for _, e := range xc.Extensions {
 		switch {
 		case e.Id.Equal(asn1.ObjectIdentifier{1, 3, 6, 1, 4, 1, 9586, 100, 7, 2}):
@@ -564,7 +667,7 @@ func c02Mapper(user string) func(string) string {
 }
 
 func TestVerif_C02(t *testing.T) {
-	res := newVerifResult("9 server configurations (plain; extension templates + Kerberos realm + group database with prefix; Ed25519 CA + templates + normalisation disabled; a template whose expansion fails; published-keys family: keymaster_public_keys_filename listing foreign keys / own main key / own Ed25519 key / both twice after a foreign key with an Ed25519 CA, own main key without one - reduced request set) x user names (case variants, dots, dashes, plus, UTF-8, 1..255 bytes, seeded random) x 7 key types/sizes x {ssh, x509, x509-kubernetes} x addGroups; requests for other names (case variants, prefixes, other users); logins with case variants; non-trivial = a certificate was issued; distinct by (configuration, name, key, type, groups flag, outcome)")
+	res := newVerifResult("12 server configurations (plain; extension templates + Kerberos realm + group database with prefix; Ed25519 CA + templates + normalisation disabled; templates whose expansion fails: command substitution in a value / in a name, arithmetic errors that depend on the length or the characters of the user name, unterminated forms; published-keys family: keymaster_public_keys_filename listing foreign keys / own main key / own Ed25519 key / both twice after a foreign key with an Ed25519 CA, own main key without one - reduced request set) x user names (case variants, dots, dashes, plus, UTF-8 precomposed / decomposed, trailing dot, 1 / 63 / 64 / 65 / 255 bytes, names sharing a 64-byte prefix, seeded random) x 7 key types/sizes x {ssh, x509, x509-kubernetes} x addGroups; requests for other names (case variants, prefixes, other users); logins with case variants; non-trivial = a certificate was issued; distinct by (configuration, name, key, type, groups flag, outcome)")
 	rng := mrand.New(mrand.NewSource(verifSeed()))
 	keys := c02Keys()
 	_, edPriv, err := ed25519.GenerateKey(rand.Reader)
@@ -574,7 +677,11 @@ func TestVerif_C02(t *testing.T) {
 	edPEM := pem.EncodeToMemory(&pem.Block{Type: "PRIVATE KEY", Bytes: edDer})
 	variants := c02Variants()
 	names := []string{"alice", "bob", "a.b-c+d_e", "carol.o-neil", "x", "dave+ssh", "Alice", "BOB", "jürgen", "a b", "user@example.com",
-		strings.Repeat("n", 64), strings.Repeat("long.name-", 25) + "12345"}
+		strings.Repeat("n", 64), strings.Repeat("long.name-", 25) + "12345",
+		// the user-name family: lengths around 64, names sharing a long prefix (one the 64-byte prefix of the others),
+		// names differing only in a trailing dot / in Unicode normalisation (precomposed above, decomposed here)
+		strings.Repeat("m", 63), strings.Repeat("n", 65), strings.Repeat("n", 64) + "a", strings.Repeat("n", 64) + "b",
+		strings.Repeat("svc-deploy-", 6) + "staging", strings.Repeat("svc-deploy-", 6) + "prod", "alice.", "ju\u0308rgen"}
 	nRandom := 4
 	if verifThorough() {
 		nRandom = 60
@@ -632,7 +739,7 @@ func TestVerif_C02(t *testing.T) {
 		judge := func(cs c02Case) {
 			o := cs.obs
 			d := map[string]interface{}{"configuration": v.name, "user": cs.user, "url_name": cs.target, "type": c01Types[cs.typ], "key": keys[cs.key].name, "addGroups": cs.addGroups}
-			ob := map[string]interface{}{"status": o.status, "names": o.names, "key_index": o.keyIdx, "signer": o.signer, "extensions": o.exts, "verify_error": o.verifyErr}
+			ob := map[string]interface{}{"status": o.status, "names": o.names, "key_index": o.keyIdx, "signer": o.signer, "extensions": o.exts, "verify_error": o.verifyErr, "other_names": o.otherNames}
 			shape := fmt.Sprintf("%s:%s", v.name, c01Types[cs.typ])
 			if !o.issued {
 				if o.parseErr != "" {
@@ -647,6 +754,10 @@ func TestVerif_C02(t *testing.T) {
 			if len(o.names) != 1 || o.names[0] != cs.user {
 				hit("wrong-name:"+shape, "the certificate names exactly the authenticated user",
 					fmt.Sprintf("%s: session of %q, /certgen/%s type=%s -> names %q", v.name, cs.user, cs.target, c01Types[cs.typ], o.names), d, ob)
+			}
+			if len(o.otherNames) > 0 {
+				hit("extra-names:"+shape, "the certificate names exactly the authenticated user: no further principal, critical option, subject attribute or subject-alternative-name entry",
+					fmt.Sprintf("%s: session of %q, /certgen/%s type=%s -> names %q and also %q", v.name, cs.user, cs.target, c01Types[cs.typ], o.names, o.otherNames), d, ob)
 			}
 			if o.keyIdx != cs.key {
 				hit("wrong-key:"+shape, "the certificate certifies exactly the submitted key", fmt.Sprintf("%s: submitted %s, certified key index %d", v.name, keys[cs.key].name, o.keyIdx), d, ob)
@@ -666,6 +777,14 @@ func TestVerif_C02(t *testing.T) {
 					k, err1 := shell.Expand(e.Key, c02Mapper(cs.user))
 					val, err2 := shell.Expand(e.Value, c02Mapper(cs.user))
 					if err1 != nil || err2 != nil {
+						// "plus the operator-configured ones": a configured extension that cannot be produced for this
+						// user means the set cannot be the required one - nothing may be issued
+						pos := "value"
+						if err1 != nil {
+							pos = "name"
+						}
+						hit("extensions:unexpandable-template:"+pos, "SSH extensions are exactly the five standard ones plus the configured ones with the user name substituted: when a configured template cannot be expanded for the user no certificate may be issued",
+							fmt.Sprintf("%s: user %q: template %q: %q does not expand (%v %v), yet an SSH certificate with extensions %q was issued", v.name, cs.user, e.Key, e.Value, err1, err2, o.exts), d, ob)
 						continue
 					}
 					custom[k] = val
@@ -687,8 +806,29 @@ func TestVerif_C02(t *testing.T) {
 				hit("undecodable:"+shape, "the certificate decodes", o.parseErr, d, ob)
 			}
 		}
+		// injectivity: within one server, no two distinct authenticated users receive the same certified name
+		certified := map[string]string{} // kind + certified name list -> authenticated user
+		injective := func(cs c02Case) {
+			o := cs.obs
+			if !o.issued {
+				return
+			}
+			kind := "x509"
+			if o.ssh {
+				kind = "ssh"
+			}
+			k := kind + "|" + fmt.Sprintf("%q", o.names)
+			if prev, ok := certified[k]; ok && prev != cs.user {
+				hit("names-injective:"+kind, "no two distinct authenticated users ever receive the same certified name",
+					fmt.Sprintf("%s: users %q and %q both received a %s certificate for the name(s) %q", v.name, prev, cs.user, kind, o.names),
+					map[string]interface{}{"configuration": v.name, "user": cs.user, "other_user": prev, "type": c01Types[cs.typ]}, map[string]interface{}{"names": o.names})
+			} else if !ok {
+				certified[k] = cs.user
+			}
+		}
 		record := func(cs c02Case) {
 			judge(cs)
+			injective(cs)
 			cases = append(cases, cs)
 			res.eval(fmt.Sprintf("%d|%s|%s|%d|%d|%v|%v|%d", cs.variant, cs.user, cs.target, cs.typ, cs.key, cs.addGroups, cs.obs.issued, cs.obs.status), cs.obs.issued)
 			if cs.obs.issued {
@@ -702,7 +842,17 @@ func TestVerif_C02(t *testing.T) {
 		}
 		// ---- own name: every key type and certificate type for the first names, a rotating
 		// choice for the rest
+		// the failing-template family: its own names, SSH on two key types and one X.509 request each
+		for _, name := range v.names {
+			for _, tk := range [][2]int{{0, 0}, {0, 3}, {1, 3}} {
+				o := issue(name, name, tk[0], tk[1], false, "cookie")
+				record(c02Case{variant: vi, user: name, target: name, typ: tk[0], key: tk[1], obs: o})
+			}
+		}
 		for ni, name := range names {
+			if v.names != nil {
+				break
+			}
 			if v.light && ni >= 2 && !(verifThorough() && ni < 6) {
 				continue
 			}
@@ -712,7 +862,10 @@ func TestVerif_C02(t *testing.T) {
 					if v.light && (typ == 2 || (typ == 1 && ki%3 != 0) || (ni == 1 && typ == 0 && ki != 6 && ki != 3)) {
 						continue
 					}
-					if !full && (ni+typ+ki)%4 != 0 {
+					// the user-name family (everything after the first eleven names) is requested for EVERY certificate
+					// type on one key type at least
+					family := ni >= 11 && ki == 3
+					if !full && !family && (ni+typ+ki)%4 != 0 {
 						continue
 					}
 					if typ == 0 && !keys[ki].sshOK {
@@ -737,7 +890,7 @@ func TestVerif_C02(t *testing.T) {
 			return l
 		}
 		for _, u := range []string{"alice", "a.b-c+d_e", "jürgen", "Alice"} {
-			if v.light {
+			if v.light || v.names != nil {
 				break
 			}
 			for oi, tgt := range others(u) {
@@ -799,16 +952,16 @@ func TestVerif_C02(t *testing.T) {
 		sb.WriteString(fmt.Sprintf("Definition tpl_%d : list (bs * bs) := %s.\n", vi, tplCoq(v.templates)))
 	}
 	sb.WriteString("Definition mk (ed : bool) (extra : list N) (tpl : list (bs * bs)) (realm : option bs) (exp : list (bs * option bs)) (g m : option (list bs)) (u tg : bs) (ty : N) (k : option (N * bool)) (ag : bool) (o : observed) : c02case :=\n  {| k_host := " + coqBS(host) + "; k_ed_ca := ed; k_extra := extra; k_templates := tpl; k_realm := realm; k_expansions := exp; k_groups := g; k_methods := m; k_user := u; k_target := tg; k_type := ty; k_key := k; k_add_groups := ag; k_obs := o |}.\n")
-	sb.WriteString("Definition ob (issued err ssh : bool) (names : list bs) (keyid : bs) (key : N) (ut ca ec ep : bool) (ex : list (bs * bs)) (sg : N) (orgs gr me : list bs) (krb : option (bs * bs)) : observed :=\n  {| o_issued := issued; o_error := err; o_ssh := ssh; o_names := names; o_keyid := keyid; o_key := key; o_user_type := ut; o_is_ca := ca; o_eku_client := ec; o_eku_pkinit := ep; o_exts := ex; o_signer := sg; o_orgs := orgs; o_groups := gr; o_methods := me; o_krb := krb |}.\n")
-	sb.WriteString("Definition cases : list c02case := [\n")
-	var idx strings.Builder
-	for i, cs := range cases {
+	sb.WriteString("Definition ob (issued err ssh : bool) (names : list bs) (keyid : bs) (key : N) (ut ca ec ep : bool) (ex : list (bs * bs)) (sg : N) (orgs gr me : list bs) (krb : option (bs * bs)) (other : list bs) : observed :=\n  {| o_issued := issued; o_error := err; o_ssh := ssh; o_names := names; o_keyid := keyid; o_key := key; o_user_type := ut; o_is_ca := ca; o_eku_client := ec; o_eku_pkinit := ep; o_exts := ex; o_signer := sg; o_orgs := orgs; o_groups := gr; o_methods := me; o_krb := krb; o_other_names := other |}.\n")
+	// the shell-expansion oracle per (configuration, user), shared by the cases of that user: every template
+	// string -> its expansion, None when the expander rejects it for this user
+	expName := map[string]string{}
+	for _, cs := range cases {
 		v := variants[cs.variant]
-		realm := "None"
-		if v.realm != "" {
-			realm = "(Some " + coqBS(v.realm) + ")"
+		k := fmt.Sprintf("%d|%s", cs.variant, cs.user)
+		if _, ok := expName[k]; ok {
+			continue
 		}
-		// the shell-expansion oracle for this user: every template string -> its expansion
 		var exp []string
 		seen := map[string]bool{}
 		for _, e := range v.templates {
@@ -824,6 +977,22 @@ func TestVerif_C02(t *testing.T) {
 					exp = append(exp, "("+coqBS(s)+", Some "+coqBS(val)+")")
 				}
 			}
+		}
+		if len(exp) == 0 {
+			expName[k] = "[]"
+			continue
+		}
+		name := fmt.Sprintf("exp_%d", len(expName))
+		expName[k] = name
+		sb.WriteString(fmt.Sprintf("Definition %s : list (bs * option bs) := [%s].\n", name, strings.Join(exp, "; ")))
+	}
+	sb.WriteString("Definition cases : list c02case := [\n")
+	var idx strings.Builder
+	for i, cs := range cases {
+		v := variants[cs.variant]
+		realm := "None"
+		if v.realm != "" {
+			realm = "(Some " + coqBS(v.realm) + ")"
 		}
 		k := keys[cs.key]
 		keyLit := fmt.Sprintf("(Some (%d, %s))", cs.key, coqBool(k.isEd))
@@ -841,17 +1010,20 @@ func TestVerif_C02(t *testing.T) {
 		if i == len(cases)-1 {
 			sep = ""
 		}
-		sb.WriteString(fmt.Sprintf(" mk %s %s tpl_%d %s [%s] %s %s %s %s %d %s %s\n   (ob %s %s %s %s %s %d %s %s %s %s %s %d %s %s %s %s)%s\n",
-			coqBool(v.edCA), v.extraCoq(), cs.variant, realm, strings.Join(exp, "; "),
+		sb.WriteString(fmt.Sprintf(" mk %s %s tpl_%d %s %s %s %s %s %s %d %s %s\n   (ob %s %s %s %s %s %d %s %s %s %s %s %d %s %s %s %s %s)%s\n",
+			coqBool(v.edCA), v.extraCoq(), cs.variant, realm, expName[fmt.Sprintf("%d|%s", cs.variant, cs.user)],
 			coqOptBSList(c02ExpectedGroups(v, cs.user), true), coqOptBSList(c02ExpectedMethods(v, cs.user), true),
 			coqBS(cs.user), coqBS(cs.target), cs.typ, keyLit, coqBool(cs.addGroups),
 			coqBool(o.issued), coqBool(o.status >= 400), coqBool(o.ssh), coqBSList(o.names), coqBS(o.keyid), o.keyIdx,
 			coqBool(o.userType), coqBool(o.isCA), coqBool(o.ekuClient), coqBool(o.ekuPkinit), coqPairs(o.exts), o.signer,
-			coqBSList(o.orgs), coqBSList(o.groups), coqBSList(o.methods), krb, sep))
-		idx.WriteString(fmt.Sprintf("%d\tconfiguration=%s user=%q url=%q type=%s key=%s addGroups=%v -> status=%d issued=%v names=%q key#%d signer=%d exts=%q orgs=%q groups=%q krb=%q\n",
-			i, v.name, cs.user, cs.target, c01Types[cs.typ], k.name, cs.addGroups, o.status, o.issued, o.names, o.keyIdx, o.signer, o.exts, o.orgs, o.groups, o.krb))
+			coqBSList(o.orgs), coqBSList(o.groups), coqBSList(o.methods), krb, coqBSList(o.otherNames), sep))
+		idx.WriteString(fmt.Sprintf("%d\tconfiguration=%s user=%q url=%q type=%s key=%s addGroups=%v -> status=%d issued=%v names=%q key#%d signer=%d exts=%q orgs=%q groups=%q krb=%q other_names=%q\n",
+			i, v.name, cs.user, cs.target, c01Types[cs.typ], k.name, cs.addGroups, o.status, o.issued, o.names, o.keyIdx, o.signer, o.exts, o.orgs, o.groups, o.krb, o.otherNames))
 	}
-	sb.WriteString("].\nDefinition c02_mismatches := Eval vm_compute in mismatches c02_bad cases.\nPrint c02_mismatches.\n")
+	sb.WriteString("].\nDefinition c02_diffv := Eval vm_compute in c02_diffv_from cases 0.\n")
+	sb.WriteString("Definition c02_mismatches := Eval vm_compute in map fst c02_diffv.\nPrint c02_mismatches.\n")
+	// the property's predicate (Model/CertgenObs.v c02_violation) on the OBSERVED answer of every mismatching case
+	sb.WriteString("Definition c02_violating := Eval vm_compute in c02_filter_violating c02_diffv.\nPrint c02_violating.\n")
 	sb.WriteString("Definition c02_ncases := Eval vm_compute in length cases.\nPrint c02_ncases.\n")
 	// logins: session subject = model normalise of the submitted name (ASCII names)
 	sb.WriteString("Definition logins : list (bool * bs * bs) := [")
